@@ -1,7 +1,10 @@
 """C07 — compressed output is a pure function of input, parameters, dictionary and calls.  Paired executions, byte-compared:
 fresh heap context vs {context with a random prior history incl. failed / aborted operations and resets; context whose match tables
 were overwritten with in-window garbage before the reset; caller-provided (static) memory; misaligned source / destination buffers;
-tiny random output capacities; 2..4 workers vs 1 worker (also under perturbed timing through different chunkings)}."""
+tiny random output capacities; 2..4 workers vs 1 worker (also under perturbed timing through different chunkings)}.
+Two directed families through harness/zvh_det.c (op px): frames compressed WITH A DICTIONARY (every supply mode x attach / copy / load x fast levels
+x sizes around the cut-offs) on contexts whose history keeps the table indices running, and OPTIMAL-PARSER levels on short-match-dense inputs over
+contexts whose memory held different bytes before (pre-filled static buffers, filling malloc, overwritten scratch tables, deeper prior frames)."""
 import build, zv, frames
 
 ASSUMPTIONS = ["'for all prior histories' is established for the explored histories only; the mechanism (stale indices fall below the new lowLimit, job cuts depend on byte counts only) is what Props/C07.lean proves",
@@ -10,6 +13,95 @@ ASSUMPTIONS = ["'for all prior histories' is established for the explored histor
 
 def hx():
     return build.link("zvh_window", ["zvh_window.c"], "plain", exclude=("zstd_compress.c",))
+
+
+def hx2():
+    return build.link("zvh_det", ["zvh_det.c"], "plain", exclude=("zstd_compress.c",))
+
+
+# source / dictionary sizes on both sides of the cut-offs that select how a CDict reaches the working context:
+# attach (source <= 8 KB fast / 16 KB dfast / 32 KB others, or size unknown), copy of the CDict's tables (above), reload of the dictionary
+# content into the context's own tables (source >= 128 KB and >= 6 x dictionary content, or ZSTD_dictForceLoad)
+DICT_CUTS = [(8192, 3000), (8193, 3000), (16384, 2000), (16385, 5000), (32768, 4000), (32769, 4000), (100000, 8000), (131071, 2000), (131072, 21845),
+             (131072, 21846), (131073, 1000), (140000, 20000), (140000, 40000), (200000, 33333), (200000, 33334), (300000, 32768), (327680, 32768), (400000, 60000)]
+# what the variant context did before the compared frame (letters: harness/zvh_det.c); 'a' / 'b' / 'g' leave the workspace size unchanged, so the
+# table indices continue and the tables keep the previous frames' entries; 'T' / 'O' overwrite tables / optimal-parser scratch between frames
+DICT_HISTS = ["aR", "aP", "bR", "gR", "aTR", "aaR", "hR", "gbP", "afR", "asR", "daR", "caP", "arTR", "baR"]
+OPT_CTX = [("s7f/s00", "-"), ("s7f/sff", "-"), ("s00/s7f", "-"), ("p7f/p00", "-"), ("p7f/pff", "-"), ("p7f/p80", "-"), ("h/p7f", "-"), ("p7f/h", "-"), ("pa5/p01", "-"),
+           ("p7f/h", "aR"), ("p7f/h", "gR"), ("p7f/h", "aOR"), ("p7f/s00", "aR"), ("s7f/sff", "aR"), ("p7f/p7f", "aR"), ("p7f/p7f", "gR"), ("p7f/p7f", "gOP"), ("h", "aaR"), ("h", "gOR"),
+           ("h", "aP"), ("p7f/p7f", "afR"), ("p7f/p7f", "asR"), ("s7f/s7f", "gOR"), ("p00/p00", "aOR")]
+
+
+def dict_history_lines(rng, quick):
+    """family 1: the frame compressed with a dictionary may not depend on what the context compressed before — every way of supplying the
+    dictionary x attach / copy / load preference x the fast strategies (where the dictionary is indexed sparsely into the context's own tables)
+    x sizes around the cut-offs x histories that keep the table indices running."""
+    out = []
+    k = 0
+    for rnd_ in range(2 if quick else 12):
+        for sup in "cClLxuUdiB":
+            for lv in (1, 2, 3, 4):
+                for att in (0, 1, 2, 3):
+                    if sup in "uUdB" and att != (lv + rnd_) % 4:
+                        continue                      # the simple API has no attach preference: one line per level and round
+                    k += 1
+                    n, d = DICT_CUTS[(k * 7 + rnd_ * 5) % len(DICT_CUTS)]
+                    if k % 3 == 0:
+                        n, d = rng.choice([(300000, 32768), (140000, 2000), (140000, 20000), (262144, 43690), (1000000, 110000)])     # reload route (by size) more often
+                    hist = DICT_HISTS[(k * 5 + rnd_) % len(DICT_HISTS)]
+                    api = "2pke"[(k + rnd_) % 4]
+                    p = {100: lv}
+                    if sup in "uUdB":
+                        api = "-"
+                        if k % 2: hist = hist[:-1] or "a"              # these entry points reset the session themselves: also without any reset call
+                    else:
+                        p[1001] = att
+                    ctxk = "h"
+                    if k % 5 == 0: ctxk = rng.choice(["pa5", "pff", "p00/p7f"])
+                    if k % 7 == 0 and sup not in "lL" and "c" not in hist and "d" not in hist: ctxk = rng.choice(["s7f", "sff", "s00/sff"])
+                    if k % 11 == 0 and sup in "clLCx" and ctxk[0] != "s" and "s" not in ctxk: p[400] = 1 + k % 2           # worker contexts are pooled and reused as well
+                    if rng.random() < 0.2: p[201] = 1
+                    dk = "z" if k % 4 == 1 else "r"
+                    out.append("px %s %s %s %s %s %d:%s df:%d %d %d" % (ctxk, hist, sup, api, frames.pstr(p), d, dk, n, rng.choice([4096, 30000, 65536, 131072]), rng.randrange(1 << 30)))
+    # the same with every other level / explicit strategies (row-based finders, dedicated dictionary search, binary trees)
+    for i in range(70 if quick else 1500):
+        sup = "cClLxuUdiB"[i % 10]
+        p = {100: rng.choice([-5, -1, 5, 6, 7, 8, 9, 10, 12, 13, 15, 16, 17, 19])}
+        if sup not in "uUdB":
+            p[1001] = i % 4
+            if rng.random() < 0.4: p[107] = rng.randint(1, 9)
+            if rng.random() < 0.2: p[1005] = 1
+            if rng.random() < 0.2: p[1011] = rng.randint(1, 2)
+        n, d = rng.choice(DICT_CUTS)
+        if p[100] >= 15 and n > 140000: n, d = 140000, 20000
+        hist = rng.choice(DICT_HISTS)
+        ctxk = "h"
+        if i % 6 == 0 and sup not in "lL" and "c" not in hist and "d" not in hist: ctxk = rng.choice(["s7f", "sff"]); p[1004] = n
+        out.append("px %s %s %s %s %s %d:%s %s:%d %d %d" % (ctxk, hist, sup, "-" if sup in "uUdB" else rng.choice("2pke"), frames.pstr(p), d, rng.choice("rrz"), rng.choice(["df", "df", "mix"]), n,
+                                                          rng.choice([4096, 30000, 65536]), rng.randrange(1 << 30)))
+    return out
+
+
+def opt_memory_lines(rng, quick):
+    """family 2: at the optimal-parser levels the frame may depend neither on what the context's memory held before (static contexts over
+    pre-filled buffers, heap contexts whose malloc returns filled blocks, scratch tables overwritten between frames) nor on the frames before.
+    Inputs dense in short matches separated by one or two literals (tables of small records, small-alphabet repeats) make the parser weigh
+    'match + one literal' alternatives at the far end of its price table in almost every series."""
+    out = []
+    lvls = [16, 17, 18, 19, 20, 21, 22, 18, 19, 13]
+    for i in range(168 if quick else 3000):
+        ctxk, hist = OPT_CTX[i % len(OPT_CTX)]
+        gen = ["sm", "rec", "sm", "rec", "sm", "rec", "mix"][(i // len(OPT_CTX) + i) % 7]
+        n = [16384, 32768, 65536, 8192, 150000, 4096, 40000][(i // 3) % 7]
+        p = {100: lvls[i % len(lvls)]}
+        if i % 8 == 3: p = {100: rng.choice([5, 13, 19]), 107: rng.choice([7, 8, 8, 9, 9]), 105: rng.choice([3, 4]), 101: rng.choice([17, 18, 20])}     # explicit btopt / btultra / btultra2
+        if i % 16 == 7: p[106] = rng.choice([16, 48, 999])
+        api = "2" if i % 4 else "kpe"[(i // 4) % 3]
+        if api != "2" or "s" in ctxk: p[1004] = n              # size hint: keeps the estimated / allocated workspaces small at the high levels
+        sup, d = "n", 0
+        if i % 12 == 5: sup, d = rng.choice(["x", "c", "C"]), rng.choice([1500, 20000])
+        out.append("px %s %s %s %s %s %d:r %s:%d %d %d" % (ctxk, hist, sup, api, frames.pstr(p), d, gen, n, rng.choice([5000, 32768, 131072]), rng.randrange(1 << 30)))
+    return out
 
 
 def correspondence(ctx):
@@ -47,19 +139,30 @@ def correspondence(ctx):
         size = rng.choice([12000000, 24000000, 48000000])
         w = rng.choice([2, 3, 4, 6])
         lines.append("det w%d %s %d %d %s c 0 %d" % (w, frames.pstr(p), size, rng.randrange(1 << 30), rng.choice(["1000000", "3000000,500000", "65536"]), rng.randrange(1 << 30)))
+    n_det = len(lines)
+    lines += dict_history_lines(rng, ctx.quick())
+    n_dict = len(lines) - n_det
+    lines += opt_memory_lines(rng, ctx.quick())
+    exe2 = hx2()
     def run(chunk):
-        rc, out, err = frames.run_lines(exe, chunk, timeout=3000)
+        if chunk and chunk[0].startswith("px "):
+            rc, out, err = frames.run_lines(exe2, chunk, timeout=3000)
+        else:
+            rc, out, err = frames.run_lines(exe, chunk, timeout=3000)
         if rc != 0 or len(out) != len(chunk):
             bad = chunk[min(len(out), len(chunk) - 1)]
             ctx.violation("library crashed in a determinism scenario (exit %d): %s" % (rc, bad[:150]), dict(kind="monitor", op=bad, stderr=err[-1500:]))
             out = out + ["skip crashed"] * (len(chunk) - len(out))
         return out
-    res = frames.parallel(run, frames.split_chunks(lines, 16))
+    res = frames.parallel(run, frames.split_chunks(lines[:n_det], 16) + frames.split_chunks(lines[n_det:], 16))
     kinds, skipped = {}, 0
     if len(res) != len(lines):
         ctx.violation("determinism harness crashed / lost output lines (%d of %d)" % (len(res), len(lines)), dict(kind="monitor"), no_input=True)
     for ln, r in zip(lines, res):
         v = ln.split()[1]
+        if ln.startswith("px "):
+            w = ln.split()
+            v = "px-opt" if w[7].split(":")[0] in ("sm", "rec") or (w[3] == "n") else "px-dict"
         kinds[v] = kinds.get(v, 0) + 1
         if r.startswith("same"):
             continue
@@ -71,16 +174,26 @@ def correspondence(ctx):
         key = None
         if v == "outcapE" and r.startswith("DIFF"):
             key = "C07-end-with-input-shortcut-depends-on-output-capacity"      # input delivered together with ZSTD_e_end
-        ctx.violation("output depends on more than (input, parameters, dictionary, calls): variant '%s' -> %s" % (v, r), dict(kind="monitor", op=ln, result=r), key=key)
+        if ln.startswith("px "):
+            ctx.violation("output depends on more than (input, parameters, dictionary, calls): context '%s' with history '%s', dictionary supply '%s', api '%s', parameters %s, dictionary %s, input %s -> %s"
+                          % (w[1], w[2], w[3], w[4], w[5], w[6], w[7], r), dict(kind="monitor", op=ln, result=r), key=key)
+        else:
+            ctx.violation("output depends on more than (input, parameters, dictionary, calls): variant '%s' -> %s" % (v, r), dict(kind="monitor", op=ln, result=r), key=key)
         if len(ctx.violations) >= 6:
             break
     return dict(evaluations=len(lines), distinct_nontrivial=len(set(lines)),
                 rule="pairs (fresh heap context, roomy output) vs variant, same input cut at the same places with the same directives: prior histories (1-4 random frames incl. too-small-destination failures and aborted streams, "
                      "other parameters / dictionaries, then reset), poisoned match tables (hash / chain / 3-byte hash filled with random in-window indices before the reset), static context of exactly the estimated size, "
-                     "source / destination misaligned by 1..63 bytes, random 1..4000-byte output capacities, 2-6 workers vs 1 worker with and without long-distance matching; distinct = distinct op lines",
+                     "source / destination misaligned by 1..63 bytes, random 1..4000-byte output capacities, 2-6 workers vs 1 worker with and without long-distance matching; "
+                     "px-dict: frame with a dictionary (CDict by reference built with a level / with the context's parameters, loadDictionary by copy / by reference, prefix, usingCDict(+_advanced), usingDict, "
+                     "initCStream_usingCDict, compressBegin_usingCDict_advanced) x attach / copy / load preference x levels 1-4 (and others) x one-shot / pledged / unknown-size / single-end-call x source and dictionary "
+                     "sizes on both sides of the attach / copy / reload cut-offs, after histories that keep the table indices running (same-size frames with and without the dictionary, larger frames, failed and aborted "
+                     "frames, tables overwritten, each reset kind or none), on heap, filled-malloc and static contexts; px-opt: optimal-parser levels 13-22 and explicit btopt / btultra / btultra2 on inputs dense in short "
+                     "matches, pairs of static contexts over buffers pre-filled with 0x00 / 0x7F / 0xFF, heap contexts whose malloc fills blocks with 0x00 / 0x01 / 0x7F / 0x80 / 0xA5 / 0xFF, price / match / frequency tables "
+                     "overwritten between frames, and prior frames that reached deeper into the price table; distinct = distinct op lines",
                 samples=[dict(op=lines[0], result=res[0])], variants=kinds, skipped=skipped)
 
 
 def replay(ctx, data):
-    rc, out, err = frames.run_lines(hx(), [data["op"]], timeout=3000)
+    rc, out, err = frames.run_lines(hx2() if data["op"].startswith("px ") else hx(), [data["op"]], timeout=3000)
     return dict(violates=not (out and out[0].startswith(("same", "skip"))), result=out)
